@@ -259,12 +259,19 @@ def run(ctx: Ctx) -> int:
             ctx.count("oracle-position")
             ctx.nontrivial(("pos", 4, 3, r, c, method))
     # lower-case A1 text is not a cell reference
-    d0, t0 = fresh(4, 3)
-    for text in ("a1", "b2", "aa10"):
-        st = call(t0.cell, text)[0]
-        ctx.count("oracle-position")
-        if st != "!IndexError":
-            ctx.oracle_fail("lowercase-a1-accepted", {"a1": text}, f"cell({text!r}) -> {st}")
+    for text in ("a1", "b2", "aa10", "$c$3", "Ab1", "aB2"):
+        for shape in ((4, 3), (2, 40)):
+            d0, t0 = fresh(*shape)
+            before = probe_state(t0)
+            for method in METHODS:
+                st = do_method(d0, t0, method, (text,), 555)
+                ctx.count("oracle-position")
+                if st != "!IndexError":
+                    ctx.oracle_fail("lowercase-a1-accepted", {"a1": text, "method": method, "shape": list(shape)},
+                                    f"{method}({text!r}) on {shape[0]}x{shape[1]} -> {st} (lower-case letters are not a cell reference)")
+                elif probe_state(t0) != before:
+                    ctx.oracle_fail("refused-call-changed-state", {"a1": text, "method": method, "shape": list(shape)},
+                                    f"{method}({text!r}) raised but changed the table")
     for (nr, nc) in shapes:
         d, t = fresh(nr, nc)
         opts_r = [None, 0, 1, nr - 2, nr - 1, nr, -1]
